@@ -160,6 +160,28 @@ def write_mc(dirpath, name, extends, defs, cfg_lines):
 # ------------------------------------------------------------------------------------------------------------------
 # exported transition relation -> covering walks
 
+import contextlib
+import fcntl
+import threading
+
+_DIR_LOCKS = {}
+_DIR_LOCKS_GUARD = threading.Lock()
+
+
+@contextlib.contextmanager
+def dir_lock(d):
+    """serialise the computation that fills cache directory d (threads of this process and other processes)"""
+    with _DIR_LOCKS_GUARD:
+        tl = _DIR_LOCKS.setdefault(d, threading.Lock())
+    with tl:
+        with open(os.path.join(d, '.lock'), 'w') as lf:
+            fcntl.flock(lf, fcntl.LOCK_EX)
+            try:
+                yield
+            finally:
+                fcntl.flock(lf, fcntl.LOCK_UN)
+
+
 class ExportCorrupt(Exception):
     pass
 
